@@ -176,7 +176,7 @@ PROFILES = {
                     allow_tilt=True, allow_absorb=True, keep_edges=True, sym_coef_from=0),
     # centred systems for real -> paraxial limits
     'centred': Profile(max_surfs=7, shapes=['standard', 'standard', 'even_asphere'], keep_edges=True, rho_min=1.5,
-                       steep_prob=0.1, negative_fields=True),
+                       steep_prob=0.1, negative_fields=True, unsorted_fields=True, allow_vignetting=True),
     # intensity bookkeeping
     'intensity': Profile(max_surfs=8, shapes=['standard', 'standard', 'even_asphere'], allow_tilt=True,
                          allow_absorb=True, allow_apertures=True, allow_coatings=True, keep_edges=True),
@@ -216,6 +216,8 @@ def lens_spec(draw, profile='paraxial', min_surfs=1, max_surfs=None, force_infin
         n0 = draw(f(1.0, 1.7))
     semi = draw(f(0.5, 15.0))
     fdeg = draw(f(0.0, P.max_field_deg))
+    if fdeg < 1e-6:
+        fdeg = 0.0        # fields whose squares underflow are "no field" written badly, not a configuration of interest
     use_height = finite and P.allow_height_fields and draw(st.booleans())
     if use_height:
         fval = t_obj * math.tan(math.radians(fdeg))
